@@ -50,8 +50,8 @@ func (g *gen) numArg(n int64) V {
 		return vNum(Pick(r, []float64{2147483648, -2147483648, 4294967296, -4294967296, 4294967297, 4294967295, -4294967295, 9007199254740992, -9007199254740992,
 			9223372036854775808, -9223372036854775808, 18446744073709551616, -18446744073709551616, 1e300, -1e300, 9223372036854774784, -9223372036854774784,
 			9223372036854777856, -9223372036854777856, 1e21}))
-	case 6:
-		return Pick(r, []V{vNull, vBool(true), vBool(false), vStr("1"), vStr(""), vStr("2"), vStr("0")})
+	case 6, 13:
+		return Pick(r, []V{vNull, vNull, vBool(true), vBool(false), vStr("1"), vStr(""), vStr("2"), vStr("0"), vUndef})
 	case 7:
 		return vNum(math.Copysign(0, -1))
 	case 8, 9:
@@ -409,6 +409,105 @@ func (g *gen) sortCase() {
 	g.runSort(a, cmp)
 }
 
+// ---------- String slice/substring/substr and the Array constructor ----------
+
+var strMethods = []string{"slice", "substring", "substr"}
+
+func valsCoq(vs []V) string {
+	t := make([]string, len(vs))
+	for i, v := range vs {
+		t[i] = v.Coq()
+	}
+	return Clist(t)
+}
+func valsJS(vs []V) string {
+	t := make([]string, len(vs))
+	for i, v := range vs {
+		t[i] = v.JS()
+	}
+	return strings.Join(t, ", ")
+}
+
+func (g *gen) runStr(m int, s string, args []V, bucket string) {
+	src := fmt.Sprintf("var r=%s.%s(%s); if(typeof r!==\"string\")throw 1; r", JSStr(Units(s)), strMethods[m], valsJS(args))
+	o := runScript(src)
+	text := fmt.Sprintf("str %s.%s(%s) -> ", JSStr(Units(s)), strMethods[m], valsJS(args))
+	obs := "None"
+	if o.Panic != nil {
+		text += fmt.Sprintf("GO PANIC %v", o.Panic)
+	} else if o.Err != nil {
+		text += "ERROR " + o.Err.Error()
+	} else {
+		text += JSStr(Units(o.Val.String()))
+		obs = "(Some " + Cstr(o.Val.String()) + ")"
+	}
+	g.env.Add(fmt.Sprintf("CStr %d %s %s %s", m, Cstr(s), valsCoq(args), obs), text, bucket, true)
+}
+
+func (g *gen) strCase() {
+	r := g.r
+	s := "abcdefgh"[:Pick(r, []int{0, 1, 2, 3, 3, 5, 5, 7, 8})]
+	n := int64(len(s))
+	odd := []V{vNull, vUndef, vBool(false), vBool(true), vStr(""), vStr("1"), vNum(math.NaN()), vNum(0), vNum(math.Copysign(0, -1)), vNum(math.Inf(1)), vNum(math.Inf(-1))}
+	var args []V
+	for i := Pick(r, []int{0, 1, 1, 2, 2, 2, 2, 2, 3}); i > 0; i-- {
+		if r.Intn(4) == 0 {
+			args = append(args, Pick(r, odd))
+		} else {
+			args = append(args, g.numArg(n))
+		}
+	}
+	g.runStr(r.Intn(3), s, args, "string-range")
+}
+
+func (g *gen) runCtor(args []V, withNew bool, bucket string) {
+	call := "Array"
+	if withNew {
+		call = "new Array"
+	}
+	src := prelude + fmt.Sprintf("var R=null, r=null, out; try{ r=%s(%s); out=\"ok \"+(Array.isArray(r)&&Object.getPrototypeOf(r)===AP ? (r.length<=64?encarr(r):enc(r.length)) : \"o\") }catch(e){ out=\"ex \"+(e instanceof RangeError?3:e instanceof TypeError?6:8) } out", call, valsJS(args))
+	o := runScript(src)
+	text := fmt.Sprintf("ctor %s(%s) -> ", call, valsJS(args))
+	obs := "(Thrown 9)"
+	if o.Panic != nil {
+		text += fmt.Sprintf("GO PANIC %v", o.Panic)
+	} else if o.Err != nil {
+		text += "ERROR " + o.Err.Error()
+	} else {
+		out := o.Val.String()
+		text += out
+		switch {
+		case strings.HasPrefix(out, "ex "):
+			obs = "(Thrown " + out[3:] + ")"
+		case strings.HasPrefix(out, "ok A"):
+			if t, ok := decArr(out[3:]); ok {
+				obs = "(Ret (RArr " + t + "))"
+			}
+		case strings.HasPrefix(out, "ok "):
+			if t, ok := decVal(out[3:]); ok {
+				obs = "(Ret (RVal " + t + "))"
+			}
+		}
+	}
+	g.env.Add(fmt.Sprintf("CCtor %s %s", valsCoq(args), obs), text, bucket, true)
+}
+
+func (g *gen) ctorCase() {
+	r := g.r
+	var args []V
+	switch r.Intn(4) {
+	case 0, 1:
+		args = []V{g.lengthValue(int64(r.Intn(6)))}
+	case 2:
+		args = []V{g.val()}
+	default:
+		for i := r.Intn(4); i > 0; i-- {
+			args = append(args, g.val())
+		}
+	}
+	g.runCtor(args, r.Intn(2) == 0, "constructor")
+}
+
 // ---------- pinned witnesses of the listed findings (run first on every run) ----------
 
 func nums(xs ...float64) []*V {
@@ -445,6 +544,8 @@ func (g *gen) pinned() {
 		[]Op{{kind: 'c', m: 9, args: []Arg{av(vStr("c")), av(vNum(2))}}}, "pinned")
 	// 8 length redefined with its own value when not writable
 	g.runHist(arr(nums(1, 2, 3)), []Op{{kind: 'p', k: kName("length"), d: Desc{w: bp(false)}}, {kind: 'p', k: kName("length"), d: Desc{v: vp(vNum(3))}}}, "pinned")
+	// 9 substr: start + length overflows int64
+	g.runStr(2, "abc", []V{vNum(1), vNum(math.Inf(1))}, "pinned")
 }
 
 // ---------- driver ----------
@@ -459,7 +560,7 @@ func runC08(env *Env) {
 	r := g.r
 	g.pinned()
 	for env.Count() < env.N {
-		switch k := r.Intn(20); {
+		switch k := r.Intn(22); {
 		case k < 8: // method calls on a prepared receiver
 			rc := g.recv(false)
 			var ops []Op
@@ -506,8 +607,14 @@ func runC08(env *Env) {
 				}
 			}
 			g.runHist(rc, ops, "names")
-		default:
+		case k < 19:
 			g.sortCase()
+		default:
+			if r.Intn(3) == 0 {
+				g.ctorCase()
+			} else {
+				g.strCase()
+			}
 		}
 	}
 }
